@@ -55,10 +55,12 @@ class BaseInterval(ABC):
         """
         vmin, vmax = self.get_limits(values)
 
-        # subtract vmin
-        values = np.subtract(values, vmin)
-        if np.issubdtype(values.dtype, np.integer):
+        # convert non-float input first: fixed-width integers wrap around in `values - vmin`
+        values = np.asarray(values)
+        if not np.issubdtype(values.dtype, np.floating):
             values = values.astype(np.float64)
+        # subtract vmin (asarray: a 0-d input would otherwise decay to a scalar)
+        values = np.asarray(np.subtract(values, vmin))
         # divide by interval
         if (vmax - vmin) != 0.0:
             np.true_divide(values, vmax - vmin, out=values)
@@ -117,8 +119,8 @@ class ManualInterval(BaseInterval):
 
         # Filter out invalid values (inf, nan)
         values = values[np.isfinite(values)]
-        vmin = np.min(values) if self.vmin is None else self.vmin
-        vmax = np.max(values) if self.vmax is None else self.vmax
+        vmin = float(np.min(values)) if self.vmin is None else self.vmin
+        vmax = float(np.max(values)) if self.vmax is None else self.vmax
 
         return vmin, vmax
 
@@ -145,8 +147,8 @@ class CenteredInterval(BaseInterval):
 
         values = np.asarray(values).ravel()
         values = values[np.isfinite(values)]
-        vmin = np.min(values)
-        vmax = np.max(values)
+        vmin = float(np.min(values))
+        vmax = float(np.max(values))
 
         half_range = np.maximum(np.abs(vmin - self.vcenter), np.abs(vmax - self.vcenter))
 
